@@ -44,7 +44,7 @@ Print Assumptions C41_refuted_http2.
    response version, response headers (exactly) and body. *)
 Theorem C41_roundtrip_partial : forall (L : lib) (se : bool) (rq : request) (r : response),
   contracts L -> flow_ok L se rq r ->
-  exists e i, flow_entry L rq (Some r) = Ok e /\ request_to_flow se L e = Ok i /\ same_exchange rq r i.
+  exists e i, flow_entry L rq (Some r) = Ok e /\ request_to_flow se L e = Ok i /\ same_exchange L rq r i.
 Proof. exact roundtrip_flow_c. Qed.
 Print Assumptions C41_roundtrip_partial.
 
@@ -55,7 +55,7 @@ Theorem C41_roundtrip_file_partial : forall (L : lib) (se : bool) (flows : list 
   exists es imported,
     make_har L flows = Ok es
     /\ import_har se L es = (imported, Clean)
-    /\ Forall2 (fun x i => same_exchange (fst x) (snd x) i) (exchanges flows) imported.
+    /\ Forall2 (fun x i => same_exchange L (fst x) (snd x) i) (exchanges flows) imported.
 Proof. exact roundtrip_har. Qed.
 Print Assumptions C41_roundtrip_file_partial.
 
